@@ -472,7 +472,10 @@ func contract_MessageInfo_skipField(mi *MessageInfo, b []byte, f *coderFieldInfo
 // The lazy tag loop: like the eager loop it only ever advances inside its input; in addition
 // every entry it records in the lazy index describes a byte range [Start, End) of the buffer
 // with Start <= End (positions measured from the start of the buffer), for buffers below 4 GiB
-// (the index stores 32-bit positions).
+// (the index stores 32-bit positions). Every occurrence of a lazy field is accounted for in the
+// index whatever the outcome of its validation: one that starts a new run of its field number
+// gets an entry of its own ending at the current position, one that continues a run moves the
+// last entry's end (the two `pos = end` sites).
 //
 // @ props C17 C06 C10
 // @ mode int
@@ -485,6 +488,8 @@ func contract_MessageInfo_skipField(mi *MessageInfo, b []byte, f *coderFieldInfo
 // @ site b = b[1:]: 1 <= len(b)
 // @ site b = b[2:]: 2 <= len(b)
 // @ site end := start - len(b): 0 <= pos && pos <= start-len(b) && start-len(b) <= start
+// @ site pos = end: imp(lazyDecode && f != nil && f.isLazy && num != lastNum, len(lazyIndex) > 0 && lazyIndex[len(lazyIndex)-1].FieldNum == uint32(num) && lazyIndex[len(lazyIndex)-1].Start == uint32(pos) && lazyIndex[len(lazyIndex)-1].End == uint32(end))
+// @ site pos = end: imp(lazyDecode && f != nil && f.isLazy && num == lastNum && len(lazyIndex) > 0, lazyIndex[len(lazyIndex)-1].End == uint32(end))
 func contract_MessageInfo_unmarshalPointerLazy(mi *MessageInfo, b []byte, p pointer, groupTag protowire.Number, opts unmarshalOptions) (out unmarshalOutput, err error) {
 	requires(mi != nil && p.p != nil)
 	requires(len(b) < 1<<32)
